@@ -70,6 +70,9 @@ P = {
  "C19": ("differential runtime monitoring across build configurations: the same seeded workloads executed by binaries built from the working tree with {64,32}-bit words x {std,no_std} x {debug assertions on,off}; digest diff against the reference build, in-process serde/byte round-trip and canonical-decoding monitors, and the other properties' oracle monitors re-run inside every configuration",
          "Runtime monitoring: quick = 4 configurations covering each axis value, thorough = all 8; per configuration the digest worker evaluates integer, float, rational, text/byte and serde (serde_json, postcard) cases and must print exactly the digests of the reference build; serde and byte encodings must round-trip, mutated streams must give Err or a canonical value (layout hook, lowest terms, non-zero denominator, normalised significand), log2 bounds must enclose an interval-arithmetic logarithm in each build; then the monitors of C01..C18 (thorough: all; quick: the word-size sensitive ones at reduced counts) run in that configuration with their exact oracles.",
          "Word size is switched by --cfg force_bits (pointer width stays 64); force_bits=16 does not compile on this host and is not covered; each binary reports its own word size / std / assertion / overflow-check state, which is recorded in the evidence.", "DESIGN.md §4 C19"),
+ "C20": ("runtime monitoring of generated programs: seeded crates of macro invocations over the literal grammar are compiled against the working tree and executed; each value is compared with the generator's own integer arithmetic and with the run-time parser; a second generated crate of out-of-grammar literals must yield one compile error per invocation; repeated with 32-bit words and (thorough) under Miri",
+         "Runtime monitoring: quick 2400 / thorough 20000 invocations of ubig!, ibig!, fbig!, dbig!, rbig! and their static_ variants (directly and through the dashu:: facade macros, in const contexts where the value fits 32 bits) with magnitudes on both sides of the u32 const path, the double word and 1..3+ word static arrays (byte lengths 1..200, padding patterns), prefixes, `base N`, signs, underscores, letter case, hex-float / binary / decimal exponents, fractions and the relaxed marker; 600 / 5000 literals of 24 out-of-grammar families must all be compile errors (one that expands is evaluated and reported with its value); a subset is rebuilt with force_bits=32 (other static word array) and executed under Miri.",
+         "Rejection of a literal inside the documented grammar is reported as a note and as lost coverage, not as a violation (the property speaks about accepted literals). Expected values: Python integers; grammar: macros/docs/*.md.", "DESIGN.md §4 C20"),
 }
 NOT_YET = "monitor not built yet in this round (design in DESIGN.md §4); no claim is made until its check exists and is silent on the unchanged tree"
 
